@@ -66,6 +66,9 @@ def run_check(prop, tier, repo_root, evidence_dir):
 
                 os.environ["XV_NO_SELFTEST"] = "1"
                 ctx.extra["selftest"] = summary(prop)
+                from .selftest.probes import metamorphic
+
+                ctx.extra["verdict_under_behaviour_preserving_transformations"] = metamorphic(prop, ctx.repo.root)
             except Exception as e:  # never let the self-test change a verdict
                 ctx.extra["selftest"] = {"error": f"{type(e).__name__}: {e}"}
             finally:
